@@ -11,7 +11,7 @@ BLOB = (400, 1600)
 RULE = ("Hypothesis byte-backed generator of histories for ring capacities 1, 2, 3 and 8 (one world executable each): 4-60 operations at generated service "
         "steps - trigger (through all three trigger functions, READ and TEST), bursts that overfill the ring, cat_is_unsolicited_buffer_full, "
         "cat_is_unsolicited_event_buffered (typed and untyped), cat_get_processed_command - on 2-5 event commands of four sorts (automatic response, scripted "
-        "handler with multi-step return codes, handler that triggers further events, events that fail immediately: nothing readable / name does not fit), "
+        "handler with multi-step return codes, handler that triggers further events, events that fail immediately: nothing readable / name does not fit; some event commands or their whole group disabled or only_test - triggers must not care), "
         "concurrently with 0-3 command lines (possibly held, released on stall) and output back-pressure; the processed command is sampled after every step. "
         "Oracle: QueueModel (bounded FIFO + in-progress slot) replayed over the trace: acceptance iff waiting < capacity, full-query agreement, start order = "
         "acceptance order, buffered/processed queries, every accepted event's handler invocations and units exactly once in order, model empty at quiescence. "
